@@ -1,5 +1,6 @@
 import Thanos.Model.StoreSpec
 import Thanos.Lemmas.Labels
+import Thanos.Lemmas.BlockSet
 /-
   Helper lemmas about the store specification (C07, C10).
 -/
@@ -29,12 +30,56 @@ theorem mem_selectSeries (serve : Labels → Labels) (ms : List Matcher) (series
     refine ⟨s, hs, ?_⟩
     simp [hm, hc, he]
 
+theorem groupBlocks_mem (ext : Labels) : ∀ (bs : List Block) (i : Nat) (x : BlockSet.Block), x ∈ groupBlocks ext i bs →
+    ∃ b, bs[x.id - i]? = some b ∧ i ≤ x.id ∧ x.mint = b.mint ∧ x.maxt = b.maxt ∧ x.res = b.res
+  | [], _, x, h => by simp [groupBlocks] at h
+  | b :: bs, i, x, h => by
+    simp only [groupBlocks] at h
+    split at h
+    · rcases List.mem_cons.mp h with rfl | h'
+      · exact ⟨b, by simp, Nat.le_refl _, rfl, rfl, rfl⟩
+      · obtain ⟨b', h1, h2, h3, h4⟩ := groupBlocks_mem ext bs (i + 1) x h'
+        refine ⟨b', ?_, by omega, h3, h4⟩
+        have : x.id - i = (x.id - (i + 1)) + 1 := by omega
+        rw [this, List.getElem?_cons_succ]
+        exact h1
+    · obtain ⟨b', h1, h2, h3, h4⟩ := groupBlocks_mem ext bs (i + 1) x h
+      refine ⟨b', ?_, by omega, h3, h4⟩
+      have : x.id - i = (x.id - (i + 1)) + 1 := by omega
+      rw [this, List.getElem?_cons_succ]
+      exact h1
+
+/-- what `BucketStore.Series` reads is among the blocks the label calls look at: `getFor` only returns blocks
+    that overlap the range (C15) -/
 theorem mem_selected (blocks : List Block) (r : Req) (b : Block) (h : b ∈ selected blocks r) :
     b ∈ blocks.filter (blockOverlaps · r.mint r.maxt) := by
   unfold selected at h
-  split at h
-  · simp at h
-  · exact h
+  obtain ⟨ext, _, hb⟩ := List.mem_flatMap.mp h
+  unfold selectedIn at hb
+  simp only at hb
+  cases hg : BlockSet.getFor true true (BlockSet.addAll BlockSet.empty (groupBlocks ext 0 blocks)).1 r.mint r.maxt r.maxRes with
+  | none => rw [hg] at hb; simp at hb
+  | some sel =>
+    rw [hg] at hb
+    simp only at hb
+    obtain ⟨x, hx, hxb⟩ := List.mem_filterMap.mp hb
+    obtain ⟨hmem, h1, h2⟩ := BlockSet.getFor_sound hg hx
+    have hx' : x ∈ groupBlocks ext 0 blocks := by
+      rcases BlockSet.addAll_mem _ _ x hmem with h' | h'
+      · exact h'
+      · have : BlockSet.empty.blocks.flatten = [] := by decide
+        rw [this] at h'
+        simp at h'
+    obtain ⟨b', hb', _, hm, hM, _⟩ := groupBlocks_mem ext blocks 0 x hx'
+    simp only [Nat.sub_zero] at hb'
+    rw [hb'] at hxb
+    simp at hxb
+    subst hxb
+    rw [List.mem_filter]
+    refine ⟨List.mem_of_getElem? hb', ?_⟩
+    unfold blockOverlaps
+    simp
+    omega
 
 theorem filterMap_congr' {α β : Type} {f g : α → Option β} : ∀ {l : List α}, (∀ a ∈ l, f a = g a) →
     l.filterMap f = l.filterMap g
